@@ -135,6 +135,7 @@ var profiles = []profile{
 	{Name: "plain", Seps: []string{" "}},
 	{Name: "lower-newline", Seps: []string{"\n", " ", "\t"}, Case: 1, Lead: "\n", Tail: "\n"},
 	{Name: "mixed-comments", Seps: []string{" /*c*/ ", " -- c\n", "/**/", " # x\n ", " "}, Case: 2, Lead: "/* lead */ ", Tail: " -- tail"},
+	{Name: "unicode-space", Seps: []string{"\u00a0", " \u3000", "\u2028", "\u0085 ", "\u2003\t", "\v\f"}, Case: 1, Lead: "\u00a0", Tail: "\u3000"},
 	{Name: "tight", Seps: []string{" "}, Case: 0},
 	{Name: "slashslash", Seps: []string{" //z\n", "\r\n", "  "}, Case: 1},
 	{Name: "mixed2", Seps: []string{" ", "/*a*//*b*/", "\n\n"}, Case: 2},
